@@ -1298,13 +1298,24 @@ def class_scenarios(rng, count):
                     b.ret(tup(lit("static@" + cname), b.Self()))
                 b.end()
                 defined.setdefault("s", []).append((lvl, sx))
+            if lvl == depth - 1 and "s" in defined and defined["s"][-1][0] == lvl and rng.random() < 0.5:
+                # the class body goes on to define an INSTANCE method with the name of the static one: the later definition wins on both
+                # sides - instances get the method, the class object no longer answers to the name
+                b.method("s", [])
+                b.ret(tup(lit("instance s@" + cname), inv(b.v("self"), "derives", b.v(cname))))
+                b.end()
             if rng.random() < 0.4:
                 b.method("init", ["v"], "ctor")
                 if explicit_ctor_levels and rng.random() < 0.7:
                     b.expr(b.superinv("init", bin_("+", b.v("v"), lit(1))))
                 b.expr(setf(b.v("self"), "f" + str(lvl), b.v("v")))
-                if rng.random() < 0.2:
+                early = rng.random()
+                if early < 0.2:
                     b.ret()
+                elif early < 0.45:
+                    # a bare return from inside a try statement: the constructor still returns the instance, after the finally block
+                    b.try_(); b.if_(bin_(">", b.v("v"), lit(5))); b.ret(); b.end(); b.expr(setf(b.v("self"), "small", lit(True)))
+                    b.finally_(); b.expr(setf(b.v("self"), "checked", lit("by finally"))); b.end()
                 b.end()
                 explicit_ctor_levels.append(lvl)
             b.end()
@@ -1322,7 +1333,7 @@ def class_scenarios(rng, count):
             var = "x%d" % step
             b.try_()
             b.var(var, mk)
-            action = rng.choice(["m", "n", "who", "bound", "field-shadow", "arity", "static-class", "static-inst", "derives", "fields",
+            action = rng.choice(["m", "n", "who", "bound", "field-shadow", "arity", "static-class", "static-inst", "derives", "fields", "protocol-field", "ctor-fields",
                                  "unknown", "method-in-var", "setf-class", "bound-native-field", "bound-native-field", "super-new",
                                  "field-shadow-super", "field-shadow-super", "static-value", "static-value", "ctor-value"])
             if action in ("m", "n"):
@@ -1348,6 +1359,17 @@ def class_scenarios(rng, count):
                 b.print(inv(b.v(var), "s"))
             elif action == "derives":
                 b.print(tup(inv(b.v(var), "derives", b.v(names[-1])), inv(b.v(var), "derives", b.v("Object")), inv(b.v(var), "derives", b.v("Error"))))
+            elif action == "protocol-field":
+                # fields come first for EVERY member access, the ones the for statement makes (iter, next) included
+                b.var("backing", inv(vec(lit("p1"), lit("p2")), "iter"))
+                if rng.random() < 0.5:
+                    b.expr(setf(b.v(var), "iter", b.lam([], lambda: b.v("backing"))))
+                else:
+                    b.expr(setf(b.v(var), "iter", b.lam([], lambda: b.v(var))))
+                    b.expr(setf(b.v(var), "next", b.lam([], lambda: inv(b.v("backing"), "next"))))
+                b.for_("el", b.v(var)); b.print(tup(lit("element"), b.v("el"))); b.end()
+            elif action == "ctor-fields":
+                b.print(tup(*[get(b.v(var), nme) for nme in ("checked", "small")]))
             elif action == "fields":
                 b.print(tup(*[get(b.v(var), "f%d" % l) for l in explicit_ctor_levels[:1]])) if explicit_ctor_levels else b.print(b.v(var))
             elif action == "unknown":
